@@ -131,6 +131,13 @@ def walk_body(func):
     """Every node lexically executed inside func's body (not its decorators/defaults, not nested defs)."""
     for st in func.body:
         yield st
+        if isinstance(st, (ast.FunctionDef, ast.AsyncFunctionDef, ast.ClassDef)):
+            # only what evaluates in the enclosing scope
+            for d in st.decorator_list:
+                yield d
+                for n in walk_local(d):
+                    yield n
+            continue
         for n in walk_local(st):
             yield n
 
